@@ -53,7 +53,7 @@ func ruleRender(r *Run) {
 		allInstrs(fn, func(in ssa.Instruction) {
 			if x, ok := in.(*ssa.IndexAddr); ok {
 				if u, ok := x.X.(*ssa.UnOp); ok {
-					if g, ok := u.X.(*ssa.Global); ok && g.Name() == "names" {
+					if g, ok := u.X.(*ssa.Global); ok && globalName(g) == "names" {
 						ia = x
 					}
 				}
@@ -93,7 +93,7 @@ func ruleRender(r *Run) {
 				if lc, ok := m.(*ssa.Call); ok {
 					if bi, ok := lc.Call.Value.(*ssa.Builtin); ok && bi.Name() == "len" {
 						if u, ok := lc.Call.Args[0].(*ssa.UnOp); ok {
-							if g, ok := u.X.(*ssa.Global); ok && g.Name() == "names" {
+							if g, ok := u.X.(*ssa.Global); ok && globalName(g) == "names" {
 								lenOK = true
 							}
 						}
@@ -135,7 +135,7 @@ func ruleRender(r *Run) {
 				return false
 			}
 			g, ok := u.X.(*ssa.Global)
-			return ok && g.Name() == "names"
+			return ok && globalName(g) == "names"
 		}
 		if sp := p.SSAPkg(cmdPkg); sp != nil {
 			if f := sp.Func("init"); f != nil {
@@ -145,7 +145,7 @@ func ruleRender(r *Run) {
 						return
 					}
 					g, ok := st.Addr.(*ssa.Global)
-					if !ok || g.Name() != "colors" {
+					if !ok || globalName(g) != "colors" {
 						return
 					}
 					c, ok := st.Val.(*ssa.Call)
@@ -428,12 +428,12 @@ func ruleRender(r *Run) {
 					return
 				}
 				g, ok := u.X.(*ssa.Global)
-				if !ok || (g.Name() != "colors" && g.Name() != "resetColor") {
+				if !ok || (globalName(g) != "colors" && globalName(g) != "resetColor") {
 					return
 				}
 				if !underOpt(u.Block(), opts, "color") {
 					bad = true
-					og.Fail(r.pos(u.Pos()), "%s is used on a path where the colour option is not known to be on", g.Name())
+					og.Fail(r.pos(u.Pos()), "%s is used on a path where the colour option is not known to be on", globalName(g))
 				}
 			})
 			// containerColors map lookups for output
@@ -555,7 +555,7 @@ func ruleRender(r *Run) {
 					g, ok := u.X.(*ssa.Global)
 					return g, ok
 				}()
-				good = ok2 && g.Name() == "colors"
+				good = ok2 && globalName(g) == "colors"
 			}
 			if !good {
 				bad = true
